@@ -1,7 +1,7 @@
 #!/bin/bash
-# usage: tools/keep_seed.sh <Cxx> <mK>   — re-evaluates and stores a confirmed seeded change under /verif/seeded/
-pid=$1; mk=$2; src=/tmp/seed-$pid-out/$mk; dst=/verif/seeded/$pid-$mk
-out=$(/verif/tools/eval_seed.sh $pid $mk 2>&1)
+# usage: tools/keep_seed.sh <Cxx> <mK> [outdir=/tmp/seed-<Cxx>-out]  — re-evaluates and stores a confirmed seeded change under /verif/seeded/
+pid=$1; mk=$2; od=${3:-/tmp/seed-$pid-out}; src=$od/$mk; dst=/verif/seeded/$pid-$mk
+out=$(/verif/tools/eval_seed.sh $pid $mk $od 2>&1)
 echo "$out" | grep -q "^CONFIRMED" || { echo "$out" | tail -3; echo "not kept"; exit 1; }
 mkdir -p $dst
 cp $src/patch.diff $dst/; cp $src/*_test.go $dst/ 2>/dev/null
